@@ -255,3 +255,40 @@ def make_unpackdict(inc):
 
 make_unpackdict(False)
 make_unpackdict(True)
+
+
+# ------------------------------------------------------------------------------------------------ search (C13)
+def make_search(complement):
+    @vc('C13.itersearch.%s' % ('complement' if complement else 'match'), functions=[RX + 'itersearch'], props=['C13', 'C03', 'C02'],
+        assumptions=['re through an uninterpreted contract (T6); one field given by a valid index; rows long enough to have the cell '
+                     '(shorter rows: known finding KF2, decided by the bounded check)', 'stateless-body rule (engine meta-theorem)'])
+    def task(h):
+        def body(ctx):
+            def delta(ls, x, dout):
+                row = view_seq(x)
+                cell = z3.Select(row.arr, f.t)
+                m = MATCHES(bi._strf(cell))
+                keep = z3.Not(m) if complement else m
+                ctx.oblige('itersearch%s: a row is kept iff the pattern %s the text of the addressed cell; kept rows are yielded once, unchanged' %
+                           (' (complement)' if complement else '', 'does NOT match' if complement else 'matches'),
+                           z3.If(keep, z3.And(dout.len == 1, _t(row_eq(out_row(dout, 0), x))), dout.len == 0))
+            it = h.interp(ctx, loops={(RX + 'itersearch', 0): LoopSpec(delta=delta, label='rows'), (RX + 'itersearch', 1): LoopSpec(delta=delta, label='rows (complement)')})
+            install_re(it, ctx)
+            S, f = setup(ctx, it)
+            rectangular(ctx, S)
+            x_ = z3.Const('x!s', V)
+            ctx.facts.append(z3.ForAll([x_], z3.Not(BAD(bi._strf(x_)))))          # text_type(v) is always a string
+            res = run_generator(it, closure_of(it, RX + 'itersearch'), [S, 'pat', f, 0, complement])
+            if res.exc is not None:
+                ctx.oblige('itersearch: never raises on a rectangular table', z3.BoolVal(False), res.exc.origin or '')
+                return
+            if getattr(ctx, 'after_loop', None):
+                pre = ctx.pre_loop_out
+                ctx.oblige('itersearch: the header first, once, unchanged; nothing after the last row',
+                           z3.And(pre.len == 1, _t(row_eq(out_row(pre, 0), src_row(S, 0))), res.out.len == 0))
+        h.explore(body)
+    return task
+
+
+make_search(False)
+make_search(True)
